@@ -73,7 +73,9 @@ func (r *ConsecutiveBlankLinesRule) Check(ctx *linter.Context) ([]linter.Violati
 	consecutiveCount := 0
 	startLine := 0
 
-	for lineNum, line := range ctx.Lines {
+	// analysed with literal and comment content masked: an empty line inside a multi-line
+	// literal or comment is content, not a blank line
+	for lineNum, line := range linter.MaskedLines(ctx.SQL) {
 		trimmed := strings.TrimSpace(line)
 
 		if trimmed == "" {
@@ -134,6 +136,12 @@ func (r *ConsecutiveBlankLinesRule) Check(ctx *linter.Context) ([]linter.Violati
 //
 // Returns the fixed content with consecutive blank lines reduced to maximum, and nil error.
 func (r *ConsecutiveBlankLinesRule) Fix(content string, violations []linter.Violation) (string, error) {
+	// Literal, quoted-identifier and comment content is masked so that it is left alone
+	// even where it spans several lines.
+	content, restore, ok := linter.MaskForRewrite(content)
+	if !ok {
+		return content, nil
+	}
 	lines := strings.Split(content, "\n")
 	result := make([]string, 0, len(lines))
 
@@ -165,5 +173,5 @@ func (r *ConsecutiveBlankLinesRule) Fix(content string, violations []linter.Viol
 		}
 	}
 
-	return strings.Join(result, "\n"), nil
+	return restore(strings.Join(result, "\n")), nil
 }
